@@ -305,6 +305,141 @@ func c05Scenario(c *choice.Ctx, rep *report.R, tcp bool, startQid int, nCalls, d
 	rep.State(fmt.Sprintf("%v|%d|%v", st, d.NumConns(), len(replies)))
 }
 
+// c05BitProbe: the reply table must be keyed by the whole 16-bit wire id. Two exchanges are in flight (the first since `gap`
+// ids ago, so that ids far apart are live at once); for each of them and for every bit position the server sends a
+// well-formed reply whose id differs from the exchange's wire id in exactly that bit (an unsolicited reply, or a late reply to
+// an exchange that was abandoned long ago): it must not complete anybody. Then the real replies arrive and each exchange
+// returns its own. Start ids cover 0, a byte boundary, a power of two inside the id space and the end of it.
+func c05BitProbe(c *choice.Ctx, rep *report.R, tcp bool) {
+	own := env.InstallOwn(0xA5, vRace)
+	defer env.UninstallOwn()
+	network := "udp"
+	if tcp {
+		network = "tcp"
+	}
+	startQid := []int{0, 255, 4096, 65530}[c.Choose(4, "start-id")]
+	gap := []int{0, 255, 256, 1024}[c.Choose(4, "gap")] // ids handed out (and answered) between the first and the second exchange
+	desc := fmt.Sprintf("tcp=%v first wire id=%d, %d exchanges in between", tcp, startQid, gap)
+	fail := func(sig, msg string) {
+		rep.Violate("C05:id-bits:"+sig, msg+"\n  "+desc, map[string]any{"Choices": c.Choices(), "Scenario": "bits"})
+	}
+	d := env.NewDialer(network)
+	tr := NewPipelineTransport(PipelineOpts{DialContext: d.Dial, IsTCP: tcp, IdleTimeout: time.Minute, MaxConcurrentQuery: 64})
+	var all []*call
+	finished := false
+	defer func() {
+		if !finished {
+			abandon(tr, d, &all)
+		}
+	}()
+	newc := func() *call { cl := newCall(len(all), 0); all = append(all, cl); return cl }
+	inject := func(b []byte) {
+		if tcp {
+			b = refdns.Frame(b)
+		}
+		d.ImplEnd(0).Inject(b)
+	}
+	// open the connection with one answered exchange, then move its id counter
+	warm := newc()
+	warm.start(tr, 2*time.Second)
+	wait()
+	if d.NumConns() != 1 {
+		fail("setup", "no connection")
+		return
+	}
+	qs := env.QueriesOn(0, d.ImplEnd(0), tcp)
+	inject(env.Answer(qs[0].Msg, 200, 60).Encode(false))
+	wait()
+	for _, pc := range poolConns(tr.pool) {
+		pc.m.Lock()
+		pc.nextQid = startQid
+		pc.m.Unlock()
+	}
+	first := newc()
+	first.start(tr, 30*time.Second)
+	wait()
+	handled := len(env.QueriesOn(0, d.ImplEnd(0), tcp))
+	for i := 0; i < gap; i++ {
+		cl := newc()
+		cl.start(tr, 2*time.Second)
+		wait()
+		qs := env.QueriesOn(0, d.ImplEnd(0), tcp)
+		if len(qs) != handled+1 {
+			break // id space exhausted / new connection: the probe below still runs on what is in flight
+		}
+		handled = len(qs)
+		inject(env.Answer(qs[handled-1].Msg, 201, 60).Encode(false))
+		wait()
+		if !cl.done || cl.resp == nil {
+			fail("setup-exchange-failed", fmt.Sprintf("exchange %d of the gap was not answered: %s", i, cl))
+			return
+		}
+	}
+	second := newc()
+	second.start(tr, 30*time.Second)
+	wait()
+	// the two probes' queries on the wire
+	var fq, sq *env.PeerQuery
+	for ci := 0; ci < d.NumConns(); ci++ {
+		for _, q := range env.QueriesOn(ci, d.ImplEnd(ci), tcp) {
+			q := q
+			if q.Msg != nil && q.Msg.Q[0].Name.Equal(first.name) {
+				fq = &q
+			}
+			if q.Msg != nil && q.Msg.Q[0].Name.Equal(second.name) {
+				sq = &q
+			}
+		}
+	}
+	if fq == nil || sq == nil || fq.Conn != 0 || sq.Conn != 0 {
+		// the second exchange went to another connection (id space of the first one used up): nothing to probe across
+		finished = true
+		tr.Close()
+		hsleep(7 * time.Second)
+		wait()
+		rep.Eval(desc + "=>separate-connections")
+		return
+	}
+	for _, target := range []*env.PeerQuery{fq, sq} {
+		for bit := 0; bit < 16; bit++ {
+			m := env.Answer(target.Msg, byte(100+bit), 60)
+			m.ID = target.WireID ^ (1 << bit)
+			if m.ID == fq.WireID || m.ID == sq.WireID {
+				continue // that id is the other live exchange's
+			}
+			inject(m.Encode(false))
+			wait()
+			for _, cl := range []*call{first, second} {
+				if cl.done {
+					fail("reply-with-foreign-id-delivered", fmt.Sprintf("a reply with wire id %d completed the exchange whose wire id is %d/%d (ids differ in bit %d): %s", m.ID, fq.WireID, sq.WireID, bit, cl))
+					return
+				}
+			}
+		}
+	}
+	inject(env.Answer(sq.Msg, 2, 60).Encode(false))
+	inject(env.Answer(fq.Msg, 1, 60).Encode(false))
+	wait()
+	for i, cl := range []*call{first, second} {
+		_, ser, ok := byte(0), byte(0), false
+		if cl.resp != nil {
+			_, ser, ok = env.AnswerKey(cl.resp)
+		}
+		if !cl.done || cl.resp == nil || !ok || int(ser) != i+1 {
+			fail("own-reply-not-delivered", fmt.Sprintf("exchange %d did not return the reply sent for its wire id: %s", i, cl))
+		}
+	}
+	finished = true
+	tr.Close()
+	hsleep(7 * time.Second)
+	wait()
+	for _, v := range own.Audit() {
+		fail("ownership", v)
+	}
+	rep.Eval(desc)
+	rep.State("bits|" + desc)
+}
+
 func TestVerifC05(t *testing.T) {
 	rep := report.New("C05 pipeline demultiplexing")
 	defer rep.Write()
@@ -314,6 +449,7 @@ func TestVerifC05(t *testing.T) {
 	rep.Rule = fmt.Sprintf("E3: real PipelineTransport (TCP and UDP framing) over scripted dialer/peer in a synctest bubble; %d exchanges; events {start (in index order), reply to any received frame in any order, duplicate reply, "+
 		"cancel, unsolicited reply, server FIN, reply and FIN in the same instant, stalled write + commit, early reply for the id of a write still in progress + FIN, advance 2s (= every deadline)}; all event orders to depth %d with <=%d fault events (cancel/dup/unsolicited/FIN); id counter start states {0, 65533, 65534, 65535}; on UDP also with one exchange whose query exceeds the datagram size (EMSGSIZE on write) among 3-4 exchanges; "+
 		"oracle after every event: returned message was sent by the server for that exchange's own frame, caller id restored, no reply used twice, wire ids distinct per connection, no (nil,nil), ownership audit; "+
+		"plus id-bit probes: two exchanges in flight whose wire ids are {0,255,256,1024} apart from start ids {0,255,4096,65530}; for each and every bit position a well-formed reply whose id differs in exactly that bit must complete nobody, then each gets its own reply; "+
 		"distinct = distinct (event sequence => outcomes); states = distinct outcome vectors", nCalls, depth, bound)
 	type cfg struct {
 		tcp      bool
@@ -326,6 +462,13 @@ func TestVerifC05(t *testing.T) {
 	if rp := report.ReplayFile(); rp != nil {
 		var x struct{ Scenario string }
 		rp.Decode(&x)
+		if x.Scenario == "bits" {
+			for _, tcp := range []bool{true, false} {
+				tcp := tcp
+				runExplore(t, rep, -1, func(c *choice.Ctx) { c05BitProbe(c, rep, tcp) })
+			}
+			return
+		}
 		for _, cf := range cfgs {
 			if fmt.Sprintf("tcp=%v,qid=%d,over=%d", cf.tcp, cf.qid, cf.oversize) == x.Scenario {
 				runExplore(t, rep, bound, func(c *choice.Ctx) { c05Scenario(c, rep, cf.tcp, cf.qid, cf.calls, depth, cf.oversize) })
@@ -338,6 +481,11 @@ func TestVerifC05(t *testing.T) {
 			cf := cf
 			st := runExplore(t, rep, bound, func(c *choice.Ctx) { c05Scenario(c, rep, cf.tcp, cf.qid, cf.calls, depth, cf.oversize) })
 			rep.Count(fmt.Sprintf("exec_tcp=%v_qid=%d_over=%d", cf.tcp, cf.qid, cf.oversize), st.Executions)
+		}
+		for _, tcp := range []bool{true, false} {
+			tcp := tcp
+			st := runExplore(t, rep, -1, func(c *choice.Ctx) { c05BitProbe(c, rep, tcp) })
+			rep.Count(fmt.Sprintf("exec_id_bits_tcp=%v", tcp), st.Executions)
 		}
 	})
 	rep.Sample(map[string]any{"events": "start0,start1,reply2(c0,id1),cancel0,reply1(c0,id0),start2,dup1", "outcomes": "err(context canceled),ok(serial 2),inflight"})
